@@ -211,4 +211,19 @@ SizeCases(long) ==
   \cup { SizeCase("session", 1000, << P("[", 1), P("1, ", 999), P("1]", 1) >>, 70) }
   \* ... and (thorough) 70 000 one-literal inputs
   \cup (IF long THEN { SizeCase("session", 1, << P("1", 1) >>, 70000) } ELSE {})
+
+\* ---------------------------------------------- 6 dimension-polymorphic arguments
+\* The literals 0, inf and NaN have EVERY dimension: they pass the type check in any argument position of a function
+\* whose parameters share a type parameter (mod<T>(a: T, b: T), atan2, clamp, ...), and the callee then receives a bare
+\* number where it expects a quantity with the unit of its other argument.  Class = arity x tuple of argument classes;
+\* the conformance step instantiates @F with every function of that arity that the standard library defines.
+PolyArgs == <<"0", "inf", "NaN", "-0", "5 m", "3 s", "2">>
+PolyArgs3 == <<"0", "inf", "5 m", "2">>
+PolyCase(k, as) == [fam |-> "polyarg", id |-> "polyarg/" \o ToString(k) \o "/" \o as[1] \o (IF k > 1 THEN "," \o as[2] ELSE "") \o (IF k > 2 THEN "," \o as[3] ELSE ""),
+                    parts |-> << P("@F", 1), P("(", 1), P(as[1], 1) >> \o (IF k > 1 THEN << P(", ", 1), P(as[2], 1) >> ELSE << >>)
+                               \o (IF k > 2 THEN << P(", ", 1), P(as[3], 1) >> ELSE << >>) \o << P(")", 1) >>,
+                    sess |-> "prelude", exact |-> "na", n |-> k, val |-> "", lit |-> "na", rep |-> 1]
+PolyCases == { PolyCase(1, <<PolyArgs[i]>>) : i \in 1..Len(PolyArgs) }
+        \cup { PolyCase(2, <<PolyArgs[i], PolyArgs[j]>>) : i \in 1..Len(PolyArgs), j \in 1..Len(PolyArgs) }
+        \cup { PolyCase(3, <<PolyArgs3[i], PolyArgs3[j], PolyArgs3[k]>>) : i \in 1..Len(PolyArgs3), j \in 1..Len(PolyArgs3), k \in 1..Len(PolyArgs3) }
 =============================================================================
